@@ -113,6 +113,7 @@ type groupExp struct {
 }
 
 type Slot struct {
+	resumePIDs map[uint16]bool // outbound ids (re)sent as part of the burst that follows a CONNACK with session present
 	Idx      int
 	ClientID string
 	Conn     *eng.Client
